@@ -2,7 +2,9 @@
   C05 — Subroutine, call-site and return-point structure is faithful.
 -/
 import TealerModel.Function
+import TealerModel.Lemmas.ParseSubs
 namespace Tealer.C05
+open Tealer.Reach Tealer.ParseSubs
 
 /-- the labels targeted by callsub instructions, and only those, are subroutines (names of the subroutine table) -/
 theorem C05_subs_are_callsub_targets (ins : List Ins) (l : String) :
@@ -18,6 +20,52 @@ theorem C05_subs_are_callsub_targets (ins : List Ins) (l : String) :
 
 /-- a callsub block knows the block where execution resumes: the first (only) successor, none if it has none -/
 theorem C05_return_point (b : FBlock) : b.retPoint = b.next.head? := rfl
+
+/-- A SUBROUTINE'S BLOCKS ARE THOSE REACHABLE FROM ITS ENTRY WITHOUT FOLLOWING CALLS.  For every program the model's
+    `parseTeal` accepts: the graph `bs` of passes 3-4 is well-formed, `__main__` is exactly the closure of block 0 under
+    its successor edges, every subroutine is exactly the closure of its entry block, and no block is listed twice.  (A
+    `callsub` block's only successor edge is its return point, so the closure does not enter callees.)  The loop's fuel
+    — number of blocks + 1 — is shown sufficient inside `Reach.go_spec`. -/
+theorem C05_blocks_are_closure (ins : List Ins) (t : Teal) (h : parseTeal ins = .ok t) :
+    ∃ nexts bs, insNext ins = .ok nexts ∧ graphOf ins nexts = .ok bs ∧ WF bs ∧
+      ((∀ x, x ∈ t.main.blocks ↔ Reach bs 0 x) ∧ t.main.blocks.Nodup ∧ t.main.entry = 0) ∧
+      (∀ s ∈ t.subs, (∀ x, x ∈ s.blocks ↔ Reach bs s.entry x) ∧ s.blocks.Nodup ∧ s.entry < bs.length) :=
+  parse_blocks_closure ins t h
+
+/-- EACH SUBROUTINE'S CALLER AND RETURN-POINT TABLES LIST EXACTLY ITS CALL SITES.  A block is in the caller table of `s`
+    iff it is retained and contains a `callsub s` instruction; the return points are the single successors of those
+    blocks, in the same order; the exit blocks are the blocks without successor or ending in `retsub`; and `s` is the
+    target of some callsub. -/
+theorem C05_caller_tables (ins : List Ins) (t : Teal) (h : parseTeal ins = .ok t) :
+    ∃ nexts bs, insNext ins = .ok nexts ∧ graphOf ins nexts = .ok bs ∧
+      ∀ s ∈ t.subs,
+        (∀ b, b ∈ s.callers ↔ b ∈ t.live ∧ ∃ k, (∃ i, ins[k]? = some i ∧ i.op = .callsub s.name) ∧
+            blockOfIns (createBB ins nexts).1 k = .ok b) ∧
+        s.retPoints = s.callers.filterMap (fun c => if (bs[c]!).next.length == 1 then (bs[c]!).next.head? else none) ∧
+        s.exits = s.blocks.filter (fun b => (bs[b]!).next.length == 0 || exitOp ins (bs[b]!) == some .retsub) ∧
+        s.name ∈ callsubLabels ins := by
+  obtain ⟨nexts, bs, h1, h2, h3⟩ := parse_callers ins t h
+  refine ⟨nexts, bs, h1, h2, ?_⟩
+  intro s hs
+  obtain ⟨hc, hr, he, hn⟩ := h3 s hs
+  refine ⟨?_, hr, he, hn⟩
+  intro b
+  rw [hc b]
+  constructor
+  · rintro ⟨hl, k, hk, hb⟩
+    exact ⟨hl, k, (mem_callPositions ins s.name k).mp hk, hb⟩
+  · rintro ⟨hl, k, hk, hb⟩
+    exact ⟨hl, k, (mem_callPositions ins s.name k).mpr hk, hb⟩
+
+/-- the two theorems are not vacuous: a program with a subroutine, a call in a loop and a dead call site -/
+def sample : List Ins :=
+  [⟨1, .pragma 8, ""⟩, ⟨2, .callsub "f", ""⟩, ⟨3, .int (.lit 1), ""⟩, ⟨4, .ret, ""⟩, ⟨5, .callsub "f", ""⟩,
+   ⟨6, .label "f", ""⟩, ⟨7, .int (.lit 0), ""⟩, ⟨8, .bz "g", ""⟩, ⟨9, .retsub, ""⟩, ⟨10, .label "g", ""⟩, ⟨11, .retsub, ""⟩]
+
+example : (match parseTeal sample with
+    | .ok t => t.main.blocks == [0, 1] &&
+        (t.subs.map fun s => (s.name, s.entry, s.blocks, s.callers, s.retPoints, s.exits)) == [("f", 3, [3, 5, 4], [0], [1], [5, 4])]
+    | .error _ => false) = true := by decide +kernel
 
 example : (callsubTable [⟨1, .callsub "f", ""⟩, ⟨2, .label "f", ""⟩, ⟨3, .retsub, ""⟩]).map (·.1) = ["f"] := by decide
 
